@@ -16,7 +16,7 @@ Inductive xop :=
 | XExec (w : write) (ks : list key)
 | XDel (ks : list key)
 | XSet (k : key) (v : cval) (m : Z)
-| XAdv (dt : nat)
+| XAdv (dt : Z)       (* seconds; node / cluster level: that many (Advance 1; Tick) *)
 | XFault (nd : option nat) (g s d : bool)
 | XCorrupt (k : key) (g : nat) (ttl : Z).
 
@@ -62,8 +62,8 @@ Definition expand (c : case) (o : xop) : list cop :=
   | XDel ks => [COp (DelCache ks)]
   | XSet k v m => [COp (SetCache k v (fac m))]
   | XAdv dt =>
-      if Nat.eqb (c_level c) 0 then [COp (Advance (Z.of_nat dt))]
-      else flat_map (fun _ => [COp (Advance 1); COp Tick]) (seq 0 dt)
+      if Nat.eqb (c_level c) 0 then [COp (Advance dt)]
+      else flat_map (fun _ => [COp (Advance 1); COp Tick]) (seq 0 (Z.to_nat dt))
   | XFault None g s d => [COp (Fault g s d)]
   | XFault (Some j) g s d => [CFault j g s d]
   | XCorrupt k g ttl => [COp (Corrupt k g ttl)]
@@ -254,9 +254,9 @@ Definition spec_step (c : case) (s : sst) (o : xop) (ob : oobs) : bool * sst :=
                      else set_taint s1 (add_key k (s_taint s1)) in
       (same_q && ttl_ok c false s (o_dump ob), fin s2)
   | XAdv dt =>
-      let hi := if Nat.eqb (c_level c) 0 then s_tick s else s_tick s + Z.of_nat dt in
+      let hi := if Nat.eqb (c_level c) 0 then s_tick s else s_tick s + Z.max 0 dt in
       let ks := retried_keys c (s_tick s) hi in
-      let s1 := mkS (s_t s) (s_f s) (s_now s + Z.of_nat dt) hi
+      let s1 := mkS (s_t s) (s_f s) (s_now s + Z.max 0 dt) hi
                     (fold_left (fun t k => del_key k t) ks (s_taint s))
                     (filter (fun kt => negb (mem (fst kt) ks)) (s_shield s)) (s_q s) (s_dump s) (s_arms s) in
       (same_q, fin s1)
